@@ -642,6 +642,50 @@ def sweep_fail_to_violation(ctx, f):
                      f'unpack_pids decodes {f["field"]} of an aux word wrongly', {'pid': c}, g, problems, AUX_PRED)
 
 
+def impl_callers(payload):
+    """The decoders as their public caller read_asdf drives them: the box and ppd it takes from the file header (ppd is stored as
+    the floating-point cube root of the particle number, a hair below or above the integer) and the float type must reach the
+    kernel as the documented values.  Each file is read back and compared, bit for bit, with the direct decoding of its raw
+    column under the header's BoxSize and the nearest-integer ppd."""
+    import os
+    import shutil
+    import tempfile
+    import asdf
+    import numpy as np
+    from abacusnbody.data import bitpacked as bp
+    from abacusnbody.data.read_abacus import read_asdf
+    from vlib.implrun import classify
+    rs = np.random.RandomState(payload['seed'])
+    tmp = tempfile.mkdtemp(prefix='c04_')
+    out = []
+    try:
+        for k, (ppd, nominal) in enumerate(((262144 ** (1 / 3.), 64), (5159780352 ** (1 / 3.), 1728), (128.00000000000003, 128),
+                                            (64.0, 64), (330225942528 ** (1 / 3.), 6912))):
+            box = float(rs.choice([2000.0, 500.0, 1024.0]))
+            n = 9
+            lag = rs.randint(0, min(nominal, 32768), size=(n, 3)).astype(np.uint64)
+            lag[0] = min(nominal, 32768) - 1           # the far face: an error in ppd is largest there
+            packed = lag[:, 0] | (lag[:, 1] << np.uint64(16)) | (lag[:, 2] << np.uint64(32)) | (np.uint64(1) << np.uint64(48))
+            fn = os.path.join(tmp, f'p{k}.asdf')
+            hdr = {'BoxSize': box, 'VelZSpace_to_kms': 1000.0, 'ppd': ppd, 'SimName': 'Synth', 'Redshift': 0.5, 'OutputType': 'TimeSlice',
+                   'SimSet': 'AbacusSummit', 'NP': nominal ** 3}
+            asdf.AsdfFile({'data': {'packedpid': packed}, 'header': hdr}).write_to(fn)
+            for dcode in ('f4', 'f8'):
+                dt = _np_dtype(dcode)
+                rec = {'ppd_header': float(ppd).hex(), 'ppd_nominal': nominal, 'box': box, 'dtype': dcode}
+                try:
+                    t = read_asdf(fn, load=('lagr_pos', 'pid', 'lagr_idx'), dtype=dt)
+                    ref = bp.unpack_pids(packed.copy(), box=box, ppd=nominal, float_dtype=dt, lagr_pos=True, pid=True, lagr_idx=True)
+                    rec.update({'class': 'ok', 'equal': {c: bool(np.array_equal(np.asarray(t[c]), ref[c])) for c in ('lagr_pos', 'pid', 'lagr_idx')},
+                                'got0': [float(x) for x in np.asarray(t['lagr_pos'])[0]], 'ref0': [float(x) for x in ref['lagr_pos'][0]]})
+                except Exception as e:  # noqa: BLE001
+                    rec.update({'class': classify(e), 'value': repr(e)[:200]})
+                out.append(rec)
+    finally:
+        shutil.rmtree(tmp, ignore_errors=True)
+    return out
+
+
 def explore(ctx):
     rvc, pidc = rv_cases(ctx), pid_cases(ctx)
     def guarded(fn, payload):
@@ -673,6 +717,18 @@ def explore(ctx):
             sweep['fail'] += r['fail']
 
     counterexamples, seen = [], set()
+    try:
+        cres = ctx.run_impl('harness.c04', 'impl_callers', {'seed': ctx.seed})
+    except Exception as e:  # noqa: BLE001
+        cres = []
+        ctx.notes.append(f'caller stage failed: {str(e)[:300]}')
+    for r in cres:
+        if (r['class'] != 'ok' or not all(r['equal'].values())) and 'aux:read_asdf-arguments' not in seen:
+            seen.add('aux:read_asdf-arguments')
+            counterexamples.append({
+                'key': 'aux:read_asdf-arguments', 'what': 'read_asdf does not hand the header\'s BoxSize / nearest-integer ppd / float type to '
+                'the PID decoder: its columns differ from the direct decoding of the raw column', 'input': {'caller': True, **{k: r[k] for k in ('ppd_header', 'ppd_nominal', 'box', 'dtype')}},
+                'impl_result': r, 'expected': 'bitwise equal to unpack_pids(raw, box=BoxSize, ppd=round(header ppd))', 'predicate': AUX_PRED})
 
     def add(v):
         if v['key'] not in seen:
@@ -796,6 +852,10 @@ def search(ctx, broken):
 
 def replay(ctx, rec):
     inp = rec['input']
+    if inp.get('caller'):
+        rs = ctx.run_impl('harness.c04', 'impl_callers', {'seed': int(rec.get('seed', 0))})
+        bad = [r for r in rs if r['class'] != 'ok' or not all(r['equal'].values())]
+        return bool(bad), {'input': inp, 'impl_result': bad[:2]}
     if 'rv' in inp:
         c = inp['rv']
         g = ctx.run_impl('harness.c04', 'impl_rv_cases', {'cases': [c]})[0]
